@@ -182,7 +182,29 @@ func checkC12(p *Prog, r *Report) {
 				dstObj = p.ObjOf(id)
 			}
 		}
-		miss := facts.Has(func(ft Fact) bool { return ft.Op == "==" && ft.Val && p.isNilExpr(ft.Y) && p.isObj(ft.X, dstObj) })
+		// ... or a variable the result is then copied to (result temporaries of a helper)
+		targets := map[types.Object]bool{}
+		if dstObj != nil {
+			targets[dstObj] = true
+			for round := 0; round < 3; round++ {
+				walkBody(cw, func(n ast.Node) bool {
+					if as, ok := n.(*ast.AssignStmt); ok && len(as.Lhs) == len(as.Rhs) {
+						for i, rr := range as.Rhs {
+							if rid, ok := unparen(rr).(*ast.Ident); ok && targets[p.ObjOf(rid)] {
+								if lid, ok := unparen(as.Lhs[i]).(*ast.Ident); ok && p.ObjOf(lid) != nil {
+									targets[p.ObjOf(lid)] = true
+								}
+							}
+						}
+					}
+					return true
+				})
+			}
+		}
+		miss := facts.Has(func(ft Fact) bool {
+			id, ok := unparen(ft.X).(*ast.Ident)
+			return ft.Op == "==" && ft.Val && p.isNilExpr(ft.Y) && ok && targets[p.ObjOf(id)]
+		})
 		_, isStun := p.HasCallTruth(facts, cw, "stun.IsMessage", 0, true)
 		_, decoded := p.HasCallEqNil(facts, cw, "stun.Message.Decode", 0, true)
 		_, hasUser := p.HasCallEqNil(facts, cw, "stun.Message.Get", 1, true)
